@@ -128,7 +128,7 @@ var errInjected = errors.New("injected storage failure")
 
 func (r *RecRepo) before(desc string) error {
 	if r.sched != nil {
-		r.sched("W " + desc)
+		r.sched(desc)
 	}
 	if r.KillAt >= 0 && r.nWrites == r.KillAt {
 		panic(killed{r.nWrites})
@@ -206,6 +206,9 @@ type ChainImpl struct {
 	file   string
 	opts   lib.StackOpts
 	Events *eventSink
+	// C15: one chain service shared by concurrent submitters
+	sharedRepo *switchRepo
+	sharedSvc  service.Chains
 }
 
 func newChainImpl(name string, opts lib.StackOpts) (*ChainImpl, error) {
